@@ -276,7 +276,16 @@ def rule_r4(ck, prog, rule='C15.R4'):
     def uses_sep(fx):
         return any(n['k'] == 'ref' and n['name'] == 'kMetadataSeparator' for n in fx.nodes) and \
             any(n['k'] == 'call' and strip_targs(n.get('c', '')).endswith('string_view::substr') for n in fx.nodes)
-    ok = bool(th) and uses_sep(th[0]) and uses_sep(fh)
+    # (either side may do the split in a private helper of the class)
+    def uses_sep_deep(fx):
+        if uses_sep(fx):
+            return True
+        for n in fx.nodes:
+            h = prog.funcs.get(n.get('ck')) if n['k'] == 'call' else None
+            if h is not None and h.cls == fh.cls and h.blocks and uses_sep(h):
+                return True
+        return False
+    ok = bool(th) and uses_sep_deep(th[0]) and uses_sep_deep(fh)
     ck.verdict(ok, rule, fh, 'metadata-bypass-symmetric', None, 'both sides split at the metadata separator' if ok else 'the metadata part is not split off symmetrically by ToHeader and FromHeader')
     if th:
         lf = th[0]
@@ -313,30 +322,57 @@ def rule_r5(ck, prog, rule='C15.R5'):
                         parsed = True
         if not parsed:
             return False
+        if any(nm not in ('size', 'length', 'Size', 'empty', 'ToHeader', 'operator->', 'operator*', 'get', 'operator bool') for nm in names):
+            unknown_idiom.append(names)
+            return False
         if 'empty' in names and 'size' not in names:
             return truth is False
         return truth is True
+    unknown_idiom = []
     ok = bool(sets) and all(g.must_pass_edge(p, nonempty_parsed) for p in sets)
-    ck.verdict(ok, rule, f, 'install-only-nonempty-parsed', sets[0].n if sets else None, 'SetBaggage only behind a non-empty parsed baggage' if ok else
-               'the baggage is installed without a non-emptiness test of the parsed baggage (e.g. the raw header is tested instead): a header with nothing valid replaces the baggage already in the context by an empty one')
+    if not ok and unknown_idiom:
+        ck.inconclusive(rule, f, 'install-only-nonempty-parsed', sets[0].n if sets else None,
+                        'the installation is gated by a test of the parsed baggage through %s, an emptiness idiom this rule does not know' % ', '.join(sorted(set(unknown_idiom[0]))))
+    else:
+        ck.verdict(ok, rule, f, 'install-only-nonempty-parsed', sets[0].n if sets else None, 'SetBaggage only behind a non-empty parsed baggage' if ok else
+                   'the baggage is installed without a non-emptiness test of the parsed baggage (e.g. the raw header is tested instead): a header with nothing valid replaces the baggage already in the context by an empty one')
     bad = [p for p in sets if not all(sn['k'] == 'ref' and sn.get('id') == f.params[1]['id'] for (sf, sn, sc) in origins(g, rd, f, p.n['args'][0], p.ctx))]
     ck.verdict(bool(sets) and not bad, rule, f, 'install-into-callers-context', (bad or sets or [None])[0].n if (bad or sets) else None,
                'the baggage is set into the context Extract was given' if sets and not bad else
                'the extracted baggage is set into a context other than the one Extract was given (e.g. the thread\'s current context): what earlier propagators of a composite extracted is discarded')
-    other = [r for r in g.returns() if not any(f.nodes[i]['k'] == 'call' and strip_targs(f.nodes[i].get('c', '')).endswith('baggage::SetBaggage') for i in f.subtree(r.n['e']))]
+    def has_set(idx):
+        return any(f.nodes[i]['k'] == 'call' and strip_targs(f.nodes[i].get('c', '')).endswith('baggage::SetBaggage') for i in list(f.subtree(idx)) + [idx])
+    other = [r for r in g.returns() if not has_set(r.n['e'])]
     ok = bool(other) and all(strip_casts(f, r.n['e']).get('id') == f.params[1]['id'] for r in other)
+    if not other:
+        # single return through a conditional expression: the branch that does not install is the caller's context
+        for r in g.returns():
+            e = strip_casts(f, r.n['e'])
+            while e['k'] == 'construct' and len(e.get('args', [])) == 1:
+                e = strip_casts(f, e['args'][0])
+            if e['k'] == 'cond':
+                sides = [x for x in (e['a'], e['b']) if not has_set(x)]
+                if len(sides) == 1:
+                    other = [r]
+                    sd = strip_casts(f, sides[0])
+                    while sd['k'] == 'construct' and len(sd.get('args', [])) == 1:
+                        sd = strip_casts(f, sd['args'][0])
+                    ok = sd.get('id') == f.params[1]['id']
     ck.verdict(ok, rule, f, 'otherwise-callers-context', other[0].n if other else None, 'otherwise the caller\'s context is returned' if ok else 'on nothing valid Extract does not return the caller\'s context itself')
 
 
 def rule_r6(ck, prog, rule='C15.R6', cls='context::propagation::CompositePropagator'):
     f = prog.function(cls + '::Inject')
-    loops = [n for n in f.nodes if n['k'] == 'forrange' and access_path(f, n['range']) == ('this', 'propagators_')]
+    from .common import loops_over, loop_visits_every_element
+    loops = loops_over(f, lambda ap: ap == ('this', 'propagators_'))
     ok = len(loops) == 1
     if ok:
-        body = [f.nodes[i] for i in f.subtree(loops[0]['body'])]
-        calls = [n for n in body if n['k'] == 'call' and n.get('virt') and strip_targs(n.get('c', '')).endswith('TextMapPropagator::Inject')]
-        early = [n for n in body if n['k'] in ('break', 'return', 'continue', 'if')]
-        ok = len(calls) == 1 and not early and [strip_casts(f, a).get('id') for a in calls[0]['args']] == [p['id'] for p in f.params]
+        gi = Graph(prog, f, inline=None, sync_lambdas=False)
+        body = set(f.subtree(loops[0]['body']))
+        callp = [p for p in gi.points if p.f is f and p.n is not None and p.n['i'] in body and p.n['k'] == 'call' and p.n.get('virt') and
+                 strip_targs(p.n.get('c', '')).endswith('TextMapPropagator::Inject')]
+        ok = len(callp) == 1 and [strip_casts(f, a).get('id') for a in callp[0].n['args']] == [p['id'] for p in f.params] and \
+            loop_visits_every_element(gi, f, loops[0], callp) is None
     ck.verdict(ok, rule, f, 'inject-every-propagator', loops[0] if loops else None, 'every propagator injects' if ok else 'Inject does not call every configured propagator with carrier and context')
     f = prog.function(cls + '::Extract')
     g = Graph(prog, f, inline=None, sync_lambdas=False)
@@ -367,6 +403,12 @@ def rule_r6(ck, prog, rule='C15.R6', cls='context::propagation::CompositePropaga
         for e2 in ex:
             arg = strip_casts(f, e2.n['args'][1])
             if arg['k'] != 'ref':
+                if arg['k'] == 'unop' and arg['op'] == '*':
+                    # the context is threaded through a pointer that is re-seated after every propagator: a data flow this rule does
+                    # not follow - say so instead of guessing
+                    for st in ('extract-threads-context', 'extract-returns-accumulator', 'extract-empty-list-returns-caller-context'):
+                        ck.inconclusive(rule, f, st, e2.n, 'the context is handed on through a pointer (*p): aliasing is not followed by this rule')
+                    return
                 bad = (e2, 'context argument is not a variable')
                 break
             if arg['id'] == a1:
